@@ -471,4 +471,5 @@ Quiet ==
 C06_Final == Quiet => (Alive = {} /\ \A d \in Digests : dedup[d] = 0) /\ \A t \in Created : task[t].stage = "C"
 
 View == <<task, op, dedup, wk, queue, drained, cl, sy>>
+Symm == Permutations(Clients) \cup Permutations(Workers)
 =============================================================================
